@@ -47,6 +47,8 @@ package zap
 // ---- C16: vector index cache: reference counting and lock discipline (sequential contracts) ----
 
 //@ guarded vectorIndexCache.cache by m
+// (build-dependent vocabulary used by the segment life-cycle contracts, see zz_verif_contracts_novectors.go)
+//@ pred vecCacheFree(s) = s.vecIndexCache != nil && muHeld(s.vecIndexCache.m) == 0
 
 //@ func (*cacheEntry).load returns (idx, vmap, dmap)
 //@ thin
@@ -134,4 +136,5 @@ package zap
 //@ tags [C16,C20]
 //@ requires vc != nil && muHeld(vc.m) == 0
 //@ ensures muHeld(vc.m) == 0 && vc.cache == nil && chanClosed(vc.closeCh)
+//@ modifies vectorIndexCache.cache[vc], ghost muHeld[addr(vc.m)], ghost chanClosed[vc.closeCh], maps, alloc, cacheEntry.*, cell(ptr_cacheEntry), ghost faissLive
 //@ end
